@@ -83,21 +83,25 @@ def run(ctx, mutants, tier='quick'):
             ctx.broken.append('self-test: unmutated scratch copy is not accepted (exit %d) %s' % (rc, lines[:2]))
     finally:
         shutil.rmtree(base, ignore_errors=True)
-    for m in list(mutants) + seeded_mutants(ctx.pid):
+    def one(m):
         d = scratch_copy()
         try:
             try:
                 apply_mutant(d, m)
             except RuntimeError as e:
-                res['details'].append({'mutant': m.get('name'), 'status': 'not-applicable: %s' % e})
-                continue
-            rc, lines = run_check(ctx.pid, d, tier)
-            res['total'] += 1
-            killed = rc == 1
-            res['killed'] += int(killed)
-            res['details'].append({'mutant': m.get('name'), 'exit': rc, 'killed': killed, 'lines': lines[:3]})
+                return {'mutant': m.get('name'), 'status': 'not-applicable: %s' % e}
+            rc, lines = run_check(ctx.pid, d, tier, jobs=6, timeout=1200)
+            return {'mutant': m.get('name'), 'exit': rc, 'killed': rc == 1, 'lines': lines[:3]}
         finally:
             shutil.rmtree(d, ignore_errors=True)
+    # three mutants at a time (each check run uses 6 worker processes)
+    from concurrent.futures import ThreadPoolExecutor
+    with ThreadPoolExecutor(max_workers=3) as tp:
+        for det in tp.map(one, list(mutants) + seeded_mutants(ctx.pid)):
+            res['details'].append(det)
+            if 'exit' in det:
+                res['total'] += 1
+                res['killed'] += int(det['killed'])
     ctx.mutants = res
     if res['total'] and res['killed'] < res['total']:
         ctx.notes.append('mutation self-test: %d of %d mutants not rejected (see coverage.mutation_self_test)'
